@@ -522,6 +522,83 @@ func c12ManyInitializers(rt *rapid.T) {
 	}
 }
 
+// perturbed returns a copy of the backing slice in which the lowest bit of element i is flipped.
+func perturbed(backing any, i int) any {
+	src := reflect.ValueOf(backing)
+	dst := reflect.MakeSlice(src.Type(), src.Len(), src.Len())
+	reflect.Copy(dst, src)
+	e := dst.Index(i)
+	switch e.Kind() {
+	case reflect.Bool:
+		e.SetBool(!e.Bool())
+	case reflect.Float32:
+		e.Set(reflect.ValueOf(math.Float32frombits(math.Float32bits(e.Interface().(float32)) ^ 1)))
+	case reflect.Float64:
+		e.SetFloat(math.Float64frombits(math.Float64bits(e.Float()) ^ 1))
+	case reflect.Int, reflect.Int8, reflect.Int16, reflect.Int32, reflect.Int64:
+		e.SetInt(e.Int() ^ 1)
+	default:
+		e.SetUint(e.Uint() ^ 1)
+	}
+	return dst.Interface()
+}
+
+// c12TwinPayloads: a process loads many models, and the weights of two of them often differ in a few
+// elements only (a fine-tuned copy). Every decode yields the values of its own payload, whatever
+// was decoded before: payload A, then A with one or two elements changed in their lowest bit, then A
+// again, each compared bit for bit with what the harness encoded.
+func c12TwinPayloads(rt *rapid.T) {
+	dt := rapid.SampledFrom(c12Dtypes).Draw(rt, "dtype")
+	var shape []int
+	switch rapid.IntRange(0, 3).Draw(rt, "size") {
+	case 0:
+		shape = genShape(1, 3, 4, 64).Draw(rt, "shape")
+	case 1:
+		shape = []int{rapid.IntRange(1, 600).Draw(rt, "n")}
+	case 2:
+		shape = []int{rapid.IntRange(1, 40).Draw(rt, "rows"), rapid.IntRange(1, 150).Draw(rt, "cols")}
+	default:
+		shape = []int{rapid.SampledFrom([]int{127, 128, 129, 255, 256, 257, 1023, 1024, 1025, 2048, 4096, 4097}).Draw(rt, "nThreshold")}
+	}
+	n := prod(shape)
+	typed := rapid.Bool().Draw(rt, "typed")
+	a := genBits(dt, n).Draw(rt, "values")
+	b := a
+	k := rapid.IntRange(1, 2).Draw(rt, "changedElements")
+	var at []int
+	for j := 0; j < k; j++ {
+		i := rapid.IntRange(0, n-1).Draw(rt, "changedAt")
+		b = perturbed(b, i)
+		at = append(at, i)
+	}
+	ev.Case("twin-payloads", fmt.Sprintf("%v %v typed=%v changed=%v #%x", dt, shape, typed, at, hash64(fmt.Sprint(a))), true,
+		fmt.Sprintf("payload-bytes>1024=%v", n*elemSize(dt) > 1024), "type-"+dt.String())
+	modelLevel := rapid.IntRange(0, 3).Draw(rt, "modelLevel") == 0
+	var earlier []c12Case
+	var earlierRes []decodeResult
+	for step, backing := range []any{a, b, a} {
+		c := c12Case{shape: shape, backing: backing, typed: typed, valid: true, kind: "valid"}
+		c.tp = encodeTensor("w", shape, backing, typed)
+		var res decodeResult
+		if modelLevel {
+			res = decodeThroughModel(c.tp)
+		} else {
+			res = decodeProto(c.tp)
+		}
+		if v := c12Judge(c, res); v != "" {
+			rt.Fatalf("C12 violated by %v, decode %d of the sequence (payload, payload with elements %v changed in the lowest bit, payload): %s", c, step+1, at, v)
+		}
+		earlier = append(earlier, c)
+		earlierRes = append(earlierRes, res)
+		// a loaded weight keeps its values while further payloads are decoded
+		for j := range earlier[:step] {
+			if v := c12Judge(earlier[j], earlierRes[j]); v != "" {
+				rt.Fatalf("C12 violated by %v: the tensor of decode %d no longer holds its values after decode %d: %s", earlier[j], j+1, step+1, v)
+			}
+		}
+	}
+}
+
 func TestC12(t *testing.T) {
 	ev.Begin("C12",
 		"rapid: element type from the 11, typed repeated field or little-endian raw bytes, shape of rank 0..4, element bit patterns (uniform 64-bit, extremes, NaN payloads, -0, small), encoded by the harness's own encoder; one in four cases malformed (payload short/long by a byte or an element, empty, negative dim, overflowing dims, shape with another element count) or given a data_type code the library cannot represent with one typed field or raw bytes populated. "+
@@ -530,6 +607,7 @@ func TestC12(t *testing.T) {
 	defer reportKnownFindings("C12")
 	check(t, "decode", 60000, 300000, c12Prop)
 	check(t, "many-initializers", 300, 3000, c12ManyInitializers)
+	check(t, "twin-payloads", 4000, 40000, c12TwinPayloads)
 }
 
 func init() {
